@@ -200,6 +200,38 @@ def h_area(sx):
     sx.check(sym_and(inv.ys[0] == a.ys[0], inv.ys[1] == a.ys[1], inv.xs[0] == a.xs[0], inv.xs[1] == a.xs[1]), 'inverse-restores')
 
 
+def h_area_after_move(sx):
+    """a pose object that has been MOVED IN PLACE (the way Agent.position / Agent.orientation setters move the agent's transform) acts like a
+    freshly built pose: nothing may remember what the object did before"""
+    y, x, y2, x2 = (sx.int(n, -3, 3) for n in ('y', 'x', 'y2', 'x2'))
+    o, o2 = sx.choice('o', ORS), sx.choice('o2', ORS)
+    ay, ax = sx.int('ay', -2, 2), sx.int('ax', -2, 2)
+    mk = lambda: Area((ay, ay + 1), (ax, ax + 2))
+    t = Transform(Position(y, x), o)
+    first = t * mk()
+    p1 = t * Position(ay, ax)
+    via = sx.choice('via', ['transform', 'agent'])
+    if via == 'transform':
+        t.position = Position(y2, x2)
+        t.orientation = o2
+    else:
+        from gym_gridverse.agent import Agent
+        ag = Agent(Position(y, x), o)
+        ag.transform * mk()
+        ag.position = Position(y2, x2)
+        ag.orientation = o2
+        t = ag.transform
+    sx.cover('moved-in-place')
+    got = t * mk()
+    want = Transform(Position(y2, x2), o2) * mk()
+    sx.check(sym_and(got.ys[0] == want.ys[0], got.ys[1] == want.ys[1], got.xs[0] == want.xs[0], got.xs[1] == want.xs[1]),
+             'moved-pose-acts-like-a-fresh-one-on-areas', f'{got} vs {want}')
+    gp, wp = t * Position(ay, ax), Transform(Position(y2, x2), o2) * Position(ay, ax)
+    sx.check(_eqpos(gp, wp.y, wp.x), 'moved-pose-acts-like-a-fresh-one-on-positions')
+    back = (-t) * got
+    sx.check(sym_and(back.ys[0] == ay, back.ys[1] == ay + 1, back.xs[0] == ax, back.xs[1] == ax + 2), 'inverse-of-the-moved-pose-restores-the-area')
+
+
 def mk_area_positions(hh, ww):
     def h(sx):
         """the set of positions of t*A is exactly the image of the positions of A (bounded extents)"""
@@ -378,6 +410,7 @@ def _obligations(tier):
         Obligation('position-algebra', h_position_algebra),
         Obligation('transform', h_transform),
         Obligation('area', h_area),
+        Obligation('area-after-in-place-move', h_area_after_move, dict(coordinates='-3..3', area='2x3 at offsets -2..2')),
         Obligation('next-position', h_next_position),
     ]
     amax = 3 if tier == 'quick' else 4
